@@ -103,6 +103,22 @@ class Report:
         if text not in self.trusted_base:
             self.trusted_base.append(text)
 
+    def supersede(self, old_rules, new_rule: str, what: str) -> int:
+        """A structural rule that ended UNDECIDED (its idiom was not recognised) is covered by a semantic rule that decides the
+        same clause on the explicit small games: when every instance of `new_rule` holds (and its floor is met), the undecided
+        instances of `old_rules` are recorded as assumed, with the reason. A violated instance is never touched."""
+        new = [i for i in self.instances if i.rule == new_rule]
+        if not new or len(new) < self.floors.get(new_rule, 1) or any(i.verdict != HOLDS for i in new):
+            return 0
+        n = 0
+        for i in self.instances:
+            if i.rule in old_rules and i.verdict == UNDECIDED:
+                i.verdict = ASSUMED
+                i.message = (i.message + " -- " if i.message else "") + f"idiom not recognised; the clause ({what}) is decided on the explicit small games by {new_rule}, which holds on all {len(new)} instances"
+                self.floors.pop(i.rule, None)
+                n += 1
+        return n
+
     # ------------------------------------------------------------ finishing
     def _known(self) -> List[Dict[str, Any]]:
         if not os.path.exists(KNOWN_FINDINGS):
